@@ -217,3 +217,36 @@ package storage
 //@   requires e != nil && e.Manager != nil && e.Cluster != nil && e.Cluster.shardView != nil && req != nil && ctx != nil && e.Manager.store != nil && e.Manager.nh != nil
 //@   ensures [C10.engine.range.path] err == nil && req.Linearizable ==> e.Manager.nh.nsync == old(e.Manager.nh.nsync) + 1 && e.Manager.nh.nstale == old(e.Manager.nh.nstale)
 //@   modifies family(G_any_nsync), family(G_any_nstale), family(G_any_lastReq), family(G_any_rHas), family(G_any_rPair), allfields(regattapb.RangeResponse)
+
+// ---------------------------------------------------------------- constructor wiring (C06, C13/C14)
+
+// New: the log cache that compaction events invalidate (Engine.LogCache, see dispatchEvents) IS the
+// cache the replication log reader answers from; the event channel exists and is open; the table
+// manager's metadata store is the raft store of this node host.
+//@ import kv "github.com/jamf/regatta/storage/kv"
+//@ import dragonboat "github.com/lni/dragonboat/v4"
+//@ trustframe "fmt" "go.uber.org/zap"
+//@ func createNodeHost
+//@   assumed
+//@   results nh, err
+//@   ensures err == nil ==> nh != nil
+//@   modifies nothing
+//@ func dragonboat.(*NodeHost).ID
+//@   assumed
+//@   modifies nothing
+//@ func table.NewManager
+//@   assumed
+//@   ensures result != nil && fresh(result) && result.nh == nh && result.store == store
+//@   modifies nothing
+//@ func logreader.NewShardCache
+//@   assumed
+//@   ensures result != nil && fresh(result)
+//@   modifies nothing
+//@ func New
+//@   maypanic
+//@   results e, err
+//@   ensures [C06.wire.cache] err == nil && cfg.LogCacheSize > 0 ==> e != nil && e.LogCache != nil && typeIs(e.LogReader, *logreader.Cached) && asType(e.LogReader, *logreader.Cached) != nil && asType(e.LogReader, *logreader.Cached).ShardCache == e.LogCache
+//@   ensures [C06.wire.simple] err == nil && cfg.LogCacheSize <= 0 ==> e != nil && typeIs(e.LogReader, *logreader.Simple) && e.LogCache == nil
+//@   ensures [C06.wire.events] err == nil ==> e.events != nil && e.events.engine == e && e.events.eventsCh != nil && !chanClosed(e.events.eventsCh)
+//@   ensures [C13.wire.store+C14] err == nil ==> e.Manager != nil && e.tableStore != nil && e.tableStore.NodeHost == e.NodeHost && e.Manager.nh == e.NodeHost && typeIs(e.Manager.store, *kv.RaftStore) && asType(e.Manager.store, *kv.RaftStore) == e.tableStore
+//@   modifies nothing
